@@ -59,7 +59,13 @@ var verifRespHeaders map[string]string
 
 func verifStubHeaderGet(h http.Header, key string) string {
 	ghostLog("header.get")
-	return verifReqHeaders[key]
+	if v, ok := verifReqHeaders[key]; ok {
+		return v
+	}
+	// any other header is under the client's control as well
+	v := nondetString("hdr.other")
+	verifReqHeaders[key] = v
+	return v
 }
 
 func verifStubHeaderSet(h http.Header, key, value string) {
@@ -86,6 +92,20 @@ func verifStubParseAddrPort(s string) (netip.AddrPort, error) {
 }
 
 func verifStubAddrOf(ap netip.AddrPort) netip.Addr { return netip.Addr{} }
+
+// further net/netip operations a handler might use on the source address: arbitrary answers
+func verifStubAddrIsLoopback(a netip.Addr) bool { return nondetBool("addr.isloopback") }
+func verifStubAddrIsPrivate(a netip.Addr) bool  { return nondetBool("addr.isprivate") }
+func verifStubParseAddr(s string) (netip.Addr, error) {
+	if nondetBool("parseaddr.fails") {
+		return netip.Addr{}, verifErrInjected
+	}
+	return netip.Addr{}, nil
+}
+func verifStubAddrPortFrom(a netip.Addr, port uint16) netip.AddrPort { return netip.AddrPort{} }
+func verifStubAddrPortPort(ap netip.AddrPort) uint16                 { return 0 }
+func verifStubAddrPortString(ap netip.AddrPort) string               { return nondetString("addrport.string") }
+func verifStubAddrString(a netip.Addr) string                        { return nondetString("addr.string") }
 
 // capability grants in the tailnet's answer, per capability name
 var verifCaps struct {
